@@ -32,6 +32,12 @@ int tl_stopwatch_Display(ESL_STOPWATCH* w){ (void)w; return 0; }
 #ifndef KV_FMT
 #define KV_FMT 2
 #endif
+#ifndef KV_HOSTILE
+#define KV_HOSTILE 0
+#endif
+#ifndef KV_CAP
+#define KV_CAP 4
+#endif
 #define KV_MAXL 40
 #define KV_LINEW 16
 
@@ -76,13 +82,20 @@ void h_c06_readers(void)
         put_line("CLUSTAL W");
         put_line("");
 #else
+#ifndef KV_MINHDR
         put_line("!!NA_MULTIPLE");
         put_line("");
         put_line(" x MSF: 3 ..");
         put_line("");
+#endif
         for(i = 0; i < KV_N; i++){
+#if KV_HOSTILE == 2
+                char l[16] = " Len: 3 Name: a";      /* keywords in the other order: the name ends the line */
+                l[14] = (char)('a' + i);
+#else
                 char l[16] = " Name: a Len: 3";
                 l[7] = (char)('a' + i);
+#endif
                 put_line(l);
         }
         put_line("");
@@ -91,6 +104,11 @@ void h_c06_readers(void)
 #endif
         for(start = 0; start < KV_W; start += KV_BLOCK){
                 for(i = 0; i < KV_N; i++){ put_block_line(i, start); }
+#if KV_HOSTILE == 1
+                /* malformed: the block goes on without a blank line, more rows than the header named (and, with the
+                   shrunk capacity KV_CAP, more than the record table holds) */
+                for(i = 0; i < KV_CAP + 1 - KV_N; i++){ put_block_line(i % KV_N, start); }
+#endif
                 put_line("");                       /* the writers print "\n" + newline: two empty lines */
                 put_line("");
         }
@@ -109,7 +127,15 @@ void h_c06_readers(void)
 #else
         rc = read_msf(b, &m);
 #endif
+#if KV_HOSTILE == 1
+        /* C05: malformed text is either rejected or read without touching anything outside the reader's objects
+           (the pointer / bounds / leak obligations of the query); nothing else is promised */
+        KV_CHECK(rc == OK || rc == FAIL, "malformed text: the reader returns a status");
+        if(rc == OK && m != NULL){ kalign_free_msa(m); m = NULL; }
+        rc = FAIL;
+#else
         KV_CHECK(rc == OK && m != NULL, "reader accepts block-structured text of its format");
+#endif
         if(rc == OK && m != NULL){
                 KV_CHECK(m->numseq == KV_N, "same number of rows");
                 for(i = 0; i < KV_N; i++){
